@@ -925,7 +925,7 @@ def isenumtype(obj: type) -> compat.TypeIs[type[enum.Enum]]:
         >>> isenumtype(FooNum)
         True
     """
-    return _safe_issubclass(obj, enum.Enum)
+    return _safe_issubclass(origin(obj), enum.Enum)
 
 
 @compat.cache
@@ -1225,7 +1225,7 @@ def istexttype(t: type[tp.Any]) -> compat.TypeIs[type[str | bytes | bytearray]]:
         >>> istexttype(MyStr)
         True
     """
-    return _safe_issubclass(t, (str, bytes, bytearray, memoryview))
+    return _safe_issubclass(origin(t), (str, bytes, bytearray, memoryview))
 
 
 @compat.cache
@@ -1238,7 +1238,7 @@ def isstringtype(t: type[tp.Any]) -> compat.TypeIs[type[str | bytes | bytearray]
         >>> istexttype(MyStr)
         True
     """
-    return _safe_issubclass(t, str)
+    return _safe_issubclass(origin(t), str)
 
 
 @compat.cache
@@ -1251,7 +1251,7 @@ def isbytestype(t: type[tp.Any]) -> compat.TypeIs[type[str | bytes | bytearray]]
         >>> istexttype(MyStr)
         True
     """
-    return _safe_issubclass(t, (bytes, bytearray, memoryview))
+    return _safe_issubclass(origin(t), (bytes, bytearray, memoryview))
 
 
 @compat.cache
@@ -1268,7 +1268,7 @@ def isnumbertype(t: type[tp.Any]) -> compat.TypeIs[type[numbers.Number]]:
         >>> isnumbertype(decimal.Decimal)
         True
     """
-    return _safe_issubclass(t, numbers.Number)
+    return _safe_issubclass(origin(t), numbers.Number)
 
 
 @compat.cache
@@ -1285,7 +1285,7 @@ def isintegertype(t: type[tp.Any]) -> compat.TypeIs[type[int]]:
         >>> isnumbertype(decimal.Decimal)
         False
     """
-    return _safe_issubclass(t, int)
+    return _safe_issubclass(origin(t), int)
 
 
 @compat.cache
@@ -1302,7 +1302,7 @@ def isfloattype(t: type[tp.Any]) -> compat.TypeIs[type[float]]:
         >>> isnumbertype(decimal.Decimal)
         False
     """
-    return _safe_issubclass(t, float)
+    return _safe_issubclass(origin(t), float)
 
 
 @compat.cache
@@ -1465,7 +1465,7 @@ def ispatterntype(t: tp.Any) -> compat.TypeIs[re.Pattern]:
         >>> ispatterntype(r"^[a-z]+$")
         False
     """
-    return _safe_issubclass(t, re.Pattern)
+    return _safe_issubclass(origin(t), re.Pattern)
 
 
 @compat.cache
@@ -1479,7 +1479,7 @@ def ispathtype(t: tp.Any) -> compat.TypeIs[pathlib.Path]:
         >>> ispathtype(".")
         False
     """
-    return _safe_issubclass(t, pathlib.PurePath)
+    return _safe_issubclass(origin(t), pathlib.PurePath)
 
 
 @compat.cache
